@@ -84,3 +84,18 @@ def check_prune(idx, before, after, pos=()):
     elif before != after:
         out.append("value at %s changed" % (list(pos),))
     return out
+
+
+def known_lines(C, S, pid, checkfn, key):
+    """replay the witnesses of the listed findings on the real code: a line for each that still fails"""
+    import json, os
+    lines = []
+    for f in [f for f in S.known_for(C, pid) if f.get("witness")]:
+        path = os.path.join(C.WORK, "known_%s_%d.jsonl" % (pid, os.getpid()))
+        w = dict(f["witness"]); w["fam"] = "post"; w["id"] = f["id"]
+        open(path, "w").write(json.dumps(w) + "\n")
+        row = C.run_family("post", 0, 0, "quick", replay=path)[0]
+        os.unlink(path)
+        if row["go"].get("valid") and checkfn(applies_index(row["m"]), canon(w["data"]), canon(row["go"][key])):
+            lines.append("%s (%s) [%s]" % (f["what"], f["site"], f["id"]))
+    return lines
